@@ -697,3 +697,12 @@ fire("c18_detach_keeps_parent", "C18", [(LNODE, "        for c in self.get_child
 fire("c18_set_parent_object", "C18", [(LNODE, '        object.__setattr__(self, "_parent_index", index)\n\n    def __post_serialize__', '        object.__setattr__(self, "_parent_index", None)\n\n    def __post_serialize__')], "R-LEG-LINK")
 fire("c18_digest_includes_origin", "C18", [(LNODE, '        hasher.update(self.__class__.__name__.encode("utf-8"))\n        for val, f in sorted(\n            self.get_properties(\n                skip_id=True,', '        hasher.update(self.__class__.__name__.encode("utf-8"))\n        hasher.update(f":{self.origin.fqn}".encode("utf-8"))\n        for val, f in sorted(\n            self.get_properties(\n                skip_id=True,')], "R-LEG-DIGEST")
 fire("c18_digest_no_index", "C18", [(LNODE, '            hasher.update(f":{f.name}[{resolved_index}]=".encode("utf-8"))', '            hasher.update(f":{f.name}=".encode("utf-8"))')], "R-LEG-DIGEST")
+
+# ---------------------------------------------------------------- C19
+fire("c19_replace_no_reregister", "C19", [(LNODE, "            if was_attached:\n                AwareASTNode._nodes[self.id] = self\n\n            if cur_parent is not None:\n                assert cur_parent_field is not None\n                self._set_parent(cur_parent, cur_parent_field, cur_parent_index)\n\n            raise e", "            if cur_parent is not None:\n                assert cur_parent_field is not None\n                self._set_parent(cur_parent, cur_parent_field, cur_parent_index)\n\n            raise e")], "R-LEG-ROLLBACK")
+fire("c19_replace_no_parent_restore", "C19", [(LNODE, "            if cur_parent is not None:\n                assert cur_parent_field is not None\n                self._set_parent(cur_parent, cur_parent_field, cur_parent_index)\n\n            raise e", "            raise e")], "R-LEG-ROLLBACK")
+fire("c19_replace_with_no_reattach", "C19", [(LNODE, "                    assert cur_parent_field is not None\n                    self._set_parent(cur_parent, cur_parent_field, cur_parent_index)\n\n                    self._attach(\"replace\")\n", "                    assert cur_parent_field is not None\n                    self._set_parent(cur_parent, cur_parent_field, cur_parent_index)\n")], "R-LEG-ROLLBACK")
+fire("c19_replace_with_effect_before_check", "C19", [(LNODE, "            # Check if the new node is of the same type as the parent expects\n            _, p_type = parent_field_type_info\n", "            # Check if the new node is of the same type as the parent expects\n            _, p_type = parent_field_type_info\n            self._clear_parent()\n")])
+fire("c19_transform_detaches_first", "C19", [(LNODE, "            orig_node = node\n            node = node.duplicate(as_detached_clone=True)\n", "            orig_node = node\n            node = node.duplicate(as_detached_clone=True)\n            orig_node.detach()\n")], "R-LEG-ROLLBACK")
+fire("c19_replace_narrow_except", "C19", [(LNODE, "                **changes,\n            )\n        except Exception as e:", "                **changes,\n            )\n        except ASTNodeParentCollisionError as e:")], "R-LEG-ROLLBACK")
+silent("c19_logging_added", "C19", [(LNODE, "        # remember the parent\n        cur_parent = self.parent\n        cur_parent_field = self.parent_field\n        cur_parent_index = self.parent_index\n        if cur_parent is not None:\n            # If we have a parent, we need to clear it first,", "        # remember the parent\n        cur_parent = self.parent\n        cur_parent_field = self.parent_field\n        cur_parent_index = self.parent_index\n        logger.debug(\"remembered parent\")\n        if cur_parent is not None:\n            # If we have a parent, we need to clear it first,")])
